@@ -45,6 +45,8 @@ def canon_py(v, dt):
         return {True: "true", False: "false"}.get(v, "?") if type(v) is bool else "?" + type(v).__name__
     if dt == "decimal":
         return dec_canon(v) if isinstance(v, Decimal) and v.is_finite() else "?" + repr(v)
+    if dt in ("token", "normalizedString"):
+        return str(v) if isinstance(v, str) else "?" + type(v).__name__
     return ""
 
 
